@@ -332,19 +332,23 @@ state; a probe logs the project's version range in force where it runs — what 
 reads. -/
 
 /-- the range in force at every executed statement is the range in force outside the block narrowed by exactly
-the version checks of the clauses enclosing the statement — whatever `tmp_meson_version` held before -/
+the version checks of the clauses enclosing the statement — whatever `tmp_meson_version` held before, and
+however blocks are left (`break`, `continue`, `subdir_done()`); the block is also left the way the control flow
+alone prescribes -/
 theorem gate_log_eq_spec (b : GBlock) (cur : Range) (tmp : GTmp) :
-    (runBlock b cur tmp).1 = (pathsBlock b).map (fun p => (p.1, narrow cur p.2)) :=
-  runBlock_log b cur tmp
+    (runBlock b cur tmp).log = (pathsBlock b).1.map (fun p => (p.1, narrow cur p.2)) ∧
+    (runBlock b cur tmp).sig = (pathsBlock b).2 :=
+  runBlock_spec b cur tmp
 
 /-- soundness of the application: a version lies in the range a statement runs under iff it lies in the
 outer range and satisfies the check of every enclosing clause that makes one (nothing leaks in from a
-sibling clause, an earlier statement or a condition that was evaluated but not taken) -/
+sibling clause, an earlier statement, a condition that was evaluated but not taken, or a block that was left
+early) -/
 theorem gate_sound (b : GBlock) (cur : Range) (tmp : GTmp) (n : Nat) (r : Range)
-    (h : (n, r) ∈ (runBlock b cur tmp).1) :
-    ∃ path, (n, path) ∈ pathsBlock b ∧
+    (h : (n, r) ∈ (runBlock b cur tmp).log) :
+    ∃ path, (n, path) ∈ (pathsBlock b).1 ∧
       ∀ x : Ver, r.contains x = true ↔ (cur.contains x = true ∧ ∀ q ∈ path, q.contains x = true) := by
-  rw [gate_log_eq_spec] at h
+  rw [(gate_log_eq_spec b cur tmp).1] at h
   obtain ⟨p, hp, he⟩ := List.mem_map.1 h
   refine ⟨p.2, ?_, ?_⟩
   · have : p.1 = n := by simpa using congrArg Prod.fst he
@@ -355,15 +359,26 @@ theorem gate_sound (b : GBlock) (cur : Range) (tmp : GTmp) (n : Nat) (r : Range)
 
 /-- what `tmp_meson_version` holds when a block starts never matters -/
 theorem gate_tmp_irrelevant (b : GBlock) (cur : Range) (t1 t2 : GTmp) :
-    (runBlock b cur t1).1 = (runBlock b cur t2).1 := by
-  rw [gate_log_eq_spec, gate_log_eq_spec]
+    (runBlock b cur t1).log = (runBlock b cur t2).log := by
+  rw [(gate_log_eq_spec b cur t1).1, (gate_log_eq_spec b cur t2).1]
 
-/-- after an `if` statement the range in force is the one before it (the next statement of the same block
-runs under `cur` again) -/
-theorem gate_restored (cs : GClauses) (n : Nat) (cur : Range) (tmp : GTmp) :
-    (n, cur) ∈ (runBlock (.cons (.ifs cs) (.cons (.probe n) .nil)) cur tmp).1 := by
-  rw [gate_log_eq_spec]
-  simp [pathsBlock, pathsStmt, narrow]
+/-- after an `if` statement that is left normally the range in force is the one before it (the next statement
+of the same block runs under `cur` again) -/
+theorem gate_restored (cs : GClauses) (n : Nat) (cur : Range) (tmp : GTmp)
+    (h : (pathsClauses cs).2 = .none) :
+    (n, cur) ∈ (runBlock (.cons (.ifs cs) (.cons (.probe n) .nil)) cur tmp).log := by
+  rw [(gate_log_eq_spec _ cur tmp).1]
+  simp [pathsBlock, pathsStmt, h, narrow]
+
+/-- … and after a `foreach` whose body left a gated block with `break` or `continue` as well: the statement
+following the loop runs under `cur` -/
+theorem gate_restored_after_loop (body : GBlock) (n : Nat) (cur : Range) (tmp : GTmp)
+    (h : (pathsBlock body).2 ≠ .done) :
+    (n, cur) ∈ (runBlock (.cons (.loop1 body) (.cons (.probe n) .nil)) cur tmp).log := by
+  rw [(gate_log_eq_spec _ cur tmp).1]
+  have : (pathsBlock body).2.afterIteration.2 = .none := by
+    cases hb : (pathsBlock body).2 <;> simp_all [GSig.afterIteration]
+  simp [pathsBlock, pathsStmt, this, narrow]
 
 /-- resetting `tmp_meson_version` once per `if` statement instead of once per clause is NOT equivalent:
 `if meson.version().version_compare('>=9') … elif true  probe` -/
@@ -371,7 +386,17 @@ theorem gate_hoisted_reset_counterexample :
     let ge9 : Range := Range.new (some (tokenize "9".toList)) true none false
     let prog : GBlock := .cons (.ifs (.cons ⟨some ge9, false⟩ .nil
                                       (.cons ⟨none, true⟩ (.cons (.probe 0) .nil) (.els .nil)))) .nil
-    (runBlockH prog {} none).1 ≠ (runBlock prog {} none).1 := by
+    (runBlockH prog {} none).1 ≠ (runBlock prog {} none).log := by
+  decide
+
+/-- restoring the range only when the block ends normally or with an error (`except Exception` instead of
+`finally`) is NOT equivalent: `foreach … if meson.version().version_compare('>=9') continue endif endforeach probe` -/
+theorem gate_restore_on_signal_counterexample :
+    let ge9 : Range := Range.new (some (tokenize "9".toList)) true none false
+    let prog : GBlock :=
+      .cons (.loop1 (.cons (.ifs (.cons ⟨some ge9, true⟩ (.cons (.exit .cont) .nil) (.els .nil))) .nil))
+        (.cons (.probe 0) .nil)
+    (runBlockL prog {} none).1.log ≠ (runBlock prog {} none).log := by
   decide
 
 /-! ### Non-vacuity: concrete instances meeting the hypotheses -/
@@ -391,6 +416,6 @@ example :
     let prog : GBlock := .cons (.ifs (.cons ⟨some ge1, true⟩
         (.cons (.ifs (.cons ⟨some lt3, true⟩ (.cons (.probe 7) .nil) (.els .nil))) (.cons (.probe 8) .nil))
         (.els .nil))) (.cons (.probe 9) .nil)
-    (pathsBlock prog) = [(7, [ge1, lt3]), (8, [ge1]), (9, [])] := by decide
+    (pathsBlock prog) = ([(7, [ge1, lt3]), (8, [ge1]), (9, [])], .none) := by decide
 
 end MesonModel.Props.C19
